@@ -17,6 +17,7 @@ pub mod std {
     pub use super::std_fs as fs;
     pub use super::std_io as io;
     pub use super::std_process as process;
+    pub use super::std_thread as thread;
     pub use super::std_time as time;
 }
 
@@ -25,6 +26,28 @@ pub mod tokio {
     pub use super::tokio_fs as fs;
     pub use super::tokio_process as process;
     pub use super::tokio_rt::spawn;
+}
+
+/// `std::thread`: sleeping is simulated; a real thread would run outside the scheduler.
+pub mod std_thread {
+    pub use ::std::thread::*;
+    use crate::kernel::{note_unsupported, syscall, try_ctx, OpKind};
+
+    pub fn sleep(d: ::std::time::Duration) {
+        if try_ctx().is_none() {
+            return;
+        }
+        let _ = syscall(OpKind::Sleep, false, |_| true, super::std_time::sleep_exec(d));
+    }
+
+    pub fn spawn<F, T>(f: F) -> JoinHandle<T>
+    where
+        F: FnOnce() -> T + Send + 'static,
+        T: Send + 'static,
+    {
+        note_unsupported("std::thread::spawn inside a simulated process (its interleaving would not be the scheduler's)");
+        ::std::thread::spawn(f)
+    }
 }
 
 pub mod fs2 {
